@@ -28,7 +28,9 @@
 (*   LazyUnsync      the lazy caches (units.go 230-241, 251-253, 317-345;  *)
 (*                   object.go 69-74) are read, built and written without  *)
 (*                   synchronisation                                       *)
-(*   CollideEither   two raw map keys denoting one key: the survivor is    *)
+(*   CollideEither   two raw map keys denoting one key (of several Go key  *)
+(*                   types, or of ONE type with a non-injective conversion *)
+(*                   - "7" / "07", "1m" / "60s"): the survivor is          *)
 (*                   the one iterated last (map.go 115-128)                *)
 (*   StripInPlace    the one-of discriminator is deleted from the caller's *)
 (*                   map instead of a clone (oneof.go 431-439)             *)
@@ -75,6 +77,15 @@
 (*                   stops when every given field was matched: whether a   *)
 (*                   missing required property is noticed depends on the   *)
 (*                   iteration order                                       *)
+(*   LastKeyDecides  enum-vs-enum compatibility keeps only the verdict of  *)
+(*                   the value it compared LAST: a differing display name  *)
+(*                   is noticed only if its value is iterated last         *)
+(*   MemoRootUnsync  a scope memoises its root object in a field without   *)
+(*                   synchronisation; construction (ApplySelf) fills it,   *)
+(*                   but a scope DERIVED from another scope's parts        *)
+(*                   (NewScopeSchemaFromScope, signals built from a signal *)
+(*                   schema) is never linked itself: its first concurrent  *)
+(*                   use races on the field                                *)
 (*   NoStepMutex     setupStepData without initializerMutex (step.go 201)  *)
 (*   EnumEarlyReturn enum compatibility returns at the first matching key  *)
 (*                   (enum.go 53-97 before its repair)                     *)
@@ -95,7 +106,7 @@
 EXTENDS Integers, Sequences, FiniteSets, TLC
 
 CONSTANTS G, MaxCalls, Kinds, Origins,
-          AliasDefaults, LazyUnsync, CollideEither, StripInPlace, StripRestore, DirtyScratch, SharedMarks, SharedInProgress, StaleMemo, SharedError, SortInPlace, ConvertInPlace, HideRestore, EarlyExitWalk, NoStepMutex,
+          AliasDefaults, LazyUnsync, CollideEither, StripInPlace, StripRestore, DirtyScratch, SharedMarks, SharedInProgress, StaleMemo, SharedError, SortInPlace, ConvertInPlace, HideRestore, EarlyExitWalk, LastKeyDecides, MemoRootUnsync, NoStepMutex,
           EnumEarlyReturn, SubOverride
 
 VARIABLES inst,          \* [kind, origin, shared]
@@ -139,7 +150,7 @@ Res(ok, m, n) == [ok |-> ok, m |-> m, n |-> n]
 Call(op, arg) == [op |-> op, arg |-> arg]
 
 Objs == {"root", "inner"}
-Refs == {"s"}
+Refs == {"s", "root"}        \* "root": the memoised root object of the scope (construction route "derived")
 UnitIds == {"u"}
 Runs == {"r1", "r2"}
 Unbuilt == [st |-> "unbuilt", m |-> Empty]
@@ -242,7 +253,9 @@ Ops(kind) ==
            \cup {Call("valid", Arg("empty", Empty)), Call("valid", Arg("b", Flat(Absent, 1, Absent, Absent)))}
       [] kind = "mapcoll" ->
            {Call("unser", Arg("collide", Empty)), Call("unser", Arg("single", Empty)),
-            Call("unser", Arg("bad", Empty))}
+            Call("unser", Arg("bad", Empty)),
+            \* two keys of ONE Go key type that convert to the same key ("7" and "07", "1m" and "60s")
+            Call("unser", Arg("typed_collide", Empty))}
       [] kind = "oneof" ->
            \* path "t" stands for the discriminator field of the caller's map
            {Call("unser", Arg("member_a", Flat(1, 1, Absent, Absent))),
@@ -253,6 +266,9 @@ Ops(kind) ==
            \cup {Call(op, Arg("member_a_bad", Flat(100, 1, Absent, Absent))) : op \in {"valid", "ser", "unser"}}
       [] kind = "enum" ->
            {Call("compat", Arg("same", Empty)), Call("compat", Arg("extra", Empty)),
+            \* the same values, ONE of them displayed under another name (or none); also as a property of two scopes
+            Call("compat", Arg("renamed", Empty)), Call("compat", Arg("unnamed", Empty)),
+            Call("compat", Arg("scope_renamed", Empty)), Call("compat", Arg("scope_same", Empty)),
             Call("unser", Arg("member", Empty)), Call("unser", Arg("bad", Empty))}
       [] kind = "steps" ->
            {Call("step", Arg(r, Empty)) : r \in Runs} \cup {Call("signal", Arg(r, Empty)) : r \in Runs}
@@ -292,6 +308,7 @@ PureSet(i, op, arg) ==
            (IF op = "unser" THEN {PureObj(i, arg)} ELSE {Res(TRUE, arg.m, 0)})
       [] k = "mapcoll" ->
            (CASE arg.tok = "collide" -> {Res(TRUE, Empty, 1), Res(TRUE, Empty, 2), Res(FALSE, Empty, 0)}
+              [] arg.tok = "typed_collide" -> {Res(FALSE, Empty, 0)}              \* duplicate key
               [] arg.tok = "single" -> {Res(TRUE, Empty, 1)}
               [] OTHER -> {Res(FALSE, Empty, 0)})
       [] k = "objreq" ->
@@ -320,7 +337,7 @@ PureSet(i, op, arg) ==
            (IF arg.tok = "nodisc" \/ (arg.m["n"] # Absent /\ arg.m["n"] > CMax)
             THEN {Res(FALSE, Empty, 0)} ELSE {Res(TRUE, arg.m, 0)})
       [] k = "enum" ->
-           (CASE op = "compat" /\ arg.tok = "same" -> {Res(TRUE, Empty, 0)}
+           (CASE op = "compat" /\ arg.tok \in {"same", "scope_same"} -> {Res(TRUE, Empty, 0)}
               [] op = "compat" /\ arg.tok = "extra" -> {Res(FALSE, Empty, 0)}    \* producer has a value the consumer lacks
               [] op = "unser" /\ arg.tok = "member" -> {Res(TRUE, Empty, 1)}
               [] OTHER -> {Res(FALSE, Empty, 0)})
@@ -329,7 +346,7 @@ PureSet(i, op, arg) ==
 
 \* ------------------------------------------------------------------ locals
 NoLoc == [sawNil |-> FALSE, names |-> "none", raw |-> Empty, priv |-> Empty, res |-> Res(FALSE, Empty, -9),
-          ord |-> 1, lvl |-> 1, pos |-> 1, term |-> TRUE, marks |-> {}]
+          ord |-> 1, lvl |-> 1, pos |-> 1, term |-> TRUE, marks |-> {}, next |-> "C1"]
 NoCall == Call("none", Arg("none", Empty))
 
 InitialCaches(i) ==
@@ -340,12 +357,16 @@ InitialCaches(i) ==
 Init ==
     /\ \E k \in Kinds : \E o \in Origins :
           /\ (o = "global" => k \in UnitKinds)              \* package-level values: the unit definitions
-          /\ (k = "steps" => o = "fresh")
+          /\ (k = "steps" => o \in {"fresh", "derived"})
+          \* "derived": a scope made of another scope's parts, never linked itself (objmap: NewScopeSchemaFromScope;
+          \* steps: the data scopes of signals built from signal schemas)
+          /\ (o = "derived" => k \in {"objmap", "steps"})
           \* shared input: explored where a call may write to what the caller handed in
           /\ \E sh \in (IF k = "oneof" /\ Cardinality(G) > 1 THEN BOOLEAN ELSE {FALSE}) :
                 inst = [kind |-> k, origin |-> o, shared |-> sh]
     /\ phase = IF inst.origin = "rebuilt" /\ HasSub(inst.kind) THEN "build" ELSE "serve"
-    /\ link = [r \in Refs |-> IF inst.origin = "rebuilt" THEN "unlinked" ELSE "inner"]
+    /\ link = [r \in Refs |-> IF r = "root" THEN (IF inst.origin = "derived" THEN "unlinked" ELSE "inner")
+                              ELSE IF inst.origin = "rebuilt" THEN "unlinked" ELSE "inner"]
     /\ defaultsCache = InitialCaches(inst)
     /\ cell = Restrict(DeclRoot(inst.kind), SubPaths)
     /\ unitCache = [u \in UnitIds |-> [sorted |-> "nil", re |-> "nil", names |-> "nil", memoText |-> "none", memoVal |-> "none"]]
@@ -397,6 +418,8 @@ Acc(g) ==
       [] pc[g] = "S3b" -> IF AliasDefaults THEN Wr("cell.s") ELSE NoAcc
       [] pc[g] = "S4"  -> IF AliasDefaults THEN Rd("cell.s") ELSE NoAcc
       [] pc[g] = "S5"  -> IF AliasDefaults /\ ~SPresent(g) THEN Rd("cell.s") ELSE NoAcc
+      [] pc[g] = "M1"  -> Rd("scope.root")
+      [] pc[g] = "M2"  -> Wr("scope.root")
       [] pc[g] = "O0"  -> IF inst.shared THEN Rd("arg") ELSE NoAcc
       [] pc[g] = "O1"  -> IF inst.shared /\ Hiding(g) THEN Wr("arg") ELSE NoAcc
       [] pc[g] = "O2"  -> IF inst.shared /\ Hiding(g) THEN Wr("arg") ELSE NoAcc
@@ -463,17 +486,33 @@ Start(g) ==
           \* a shared input is one value: the calls in flight were given the same one
           /\ inst.shared => \A h \in InFlight(g) : cur[h].arg = c.arg
           /\ cur' = [cur EXCEPT ![g] = c]
-          /\ loc' = [loc EXCEPT ![g] = [NoLoc EXCEPT !.ord = ord]]
+          /\ loc' = [loc EXCEPT ![g] = [NoLoc EXCEPT !.ord = ord, !.next = Entry(c)]]
           /\ argmem' = IF inst.shared /\ InFlight(g) # {} THEN argmem ELSE [argmem EXCEPT ![Cell(g)] = c.arg.m]
-          /\ Goto(g, Entry(c))
+          \* every operation on a scope begins with RootObject()
+          /\ Goto(g, IF MemoRootUnsync /\ inst.origin = "derived" /\ (K # "steps" \/ c.op = "signal") THEN "M1" ELSE Entry(c))
     /\ UNCHANGED <<inst, phase, link, defaultsCache, cell, unitCache, table, initCount, scratch, mutex, descr, ncalls, hist>>
+
+\* RootObject() with an unsynchronised memo: if s.rootObject != nil { return it }; look up; s.rootObject = ...
+MemoFrame == UNCHANGED <<inst, phase, defaultsCache, cell, unitCache, table, initCount, scratch, mutex, descr, argmem, cur,
+                         loc, ncalls, hist>>
+MemoRead(g) ==
+    /\ At(g, "M1")
+    /\ Goto(g, IF link["root"] = "unlinked" THEN "M2" ELSE loc[g].next)
+    /\ UNCHANGED link /\ MemoFrame
+MemoWrite(g) ==
+    /\ At(g, "M2")
+    /\ link' = [link EXCEPT !["root"] = "inner"]
+    /\ Goto(g, loc[g].next) /\ MemoFrame
 
 \* the stateless operations: the result is a function of the call and - where the code ranges over a map -
 \* of the iteration order
 Stateless(c, ord) ==
-    CASE K = "mapcoll" /\ c.arg.tok = "collide" ->
+    CASE K = "mapcoll" /\ c.arg.tok \in {"collide", "typed_collide"} ->
              IF CollideEither THEN Res(TRUE, Empty, IF ord = 1 THEN 2 ELSE 1)   \* the key iterated last survives
              ELSE Res(FALSE, Empty, 0)                                           \* repaired: duplicates rejected
+      [] K = "enum" /\ c.op = "compat" /\ c.arg.tok \in {"renamed", "unnamed", "scope_renamed"} ->
+             \* noticed only if the differing value is compared last (order 2)
+             IF LastKeyDecides /\ ord = 1 THEN Res(TRUE, Empty, 0) ELSE Res(FALSE, Empty, 0)
       [] K = "enum" /\ c.op = "compat" /\ c.arg.tok = "extra" ->
              \* the producer's values are {shared, extra}; early return: accepted iff "shared" is met first
              IF EnumEarlyReturn /\ ord = 1 THEN Res(TRUE, Empty, 0) ELSE Res(FALSE, Empty, 0)
@@ -847,7 +886,7 @@ StepDone(g) ==
 
 \* ------------------------------------------------------------------ next-state relation
 Step(g) ==
-    \/ Start(g) \/ Compute(g) \/ Return(g)
+    \/ Start(g) \/ Compute(g) \/ Return(g) \/ MemoRead(g) \/ MemoWrite(g)
     \* units, unsynchronised or under the repaired design's lock
     \/ Acquire(g, "PL", "unit", "P1") \/ Release(g, "PU", "unit", "ret")
     \/ Acquire(g, "FL", "unit", "F1") \/ Release(g, "FU", "unit", "ret")
